@@ -17,9 +17,10 @@ class PtEval:
     ``subst``: optional dict id(node)->callable(idx)->value overriding a node
     (used e.g. for received data in distributed programs)."""
 
-    def __init__(self, alg, sizes=None, dwname=None, subst=None, phname=None):
+    def __init__(self, alg, sizes=None, dwname=None, subst=None, phname=None, phvals=None):
         self.alg = alg
-        self.phname = phname or {}
+        self.phname = phname if phname is not None else {}
+        self.phvals = phvals or {}
         self.sizes = sizes or {}
         self.dwname = dwname or _default_dwname
         self.subst = subst or {}
@@ -69,6 +70,8 @@ class PtEval:
                         return self.at(bound, idx)
                     finally:
                         self._param_stack = saved
+            if node.name in self.phvals:
+                return self.phvals[node.name](idx)
             return alg.read(self.phname.get(node.name, node.name), idx)
         if isinstance(node, A.SizeParam):
             if node.name in self.sizes:
